@@ -31,7 +31,7 @@ def run(ctx):
                        "headers, every declared header size 0..20/255 against 12- and 14-byte originals, chains, mutated chains through CheckIntegrity vs the reference rules, each also "
                        "through a reader returning everything with io.EOF and a one-byte reader; non-trivial = longer than 14 bytes; distinct by bytes")
     ctx.cov["checker_cmd"] = "coq/build.sh Props/C04.vo Run/RunC04.vo; coqc Props/C04.v; coqc cases_C04_*.v (vm_compute: check_case, check_impl, class_is)"
-    tr = ctx.prepare(parts=["dump-consts", "crc", "factory"])
+    tr = ctx.prepare(parts=["factory", "dump-consts", "crc", "decoder-reset", "convmode"])
     ok, _ = ctx.coq(["Props/C04.vo", "Run/RunC04.vo"])
     if ok:
         ctx.props()
